@@ -15,6 +15,8 @@ import ast
 from sa.model import AnalysisError, CallGraph, norm, effects, MUTATORS
 from sa.patheval import Interp, Native, Obj, Sym, Top, UnknownMethod
 from sa.report import RuleResult
+from sa import dataflow
+from sa.rules.common import call_sites, mentions, owner_closure
 
 DESCRIPTOR_FIELDS = {'id', 'name', 'unit', 'scale', 'refval', 'nbits', 'members', 'factor', 'marker_id', 'crex_unit', 'crex_scale', 'crex_nchars'}
 
@@ -32,6 +34,7 @@ def rule_r1(repo):
         '_cache': ('TableC', {'__init__', 'lookup'}),
     }
     n = 0
+    closures = {}
     for fi in repo.all_funcs():
         eff = effects(fi)
         for recv in set(eff.writes) | set(eff.mutates):
@@ -39,6 +42,10 @@ def rule_r1(repo):
                 if attr not in owners:
                     continue
                 owner, allowed = owners[attr]
+                if owner is not None:
+                    allowed = closures.setdefault(attr, owner_closure(repo, owner, allowed))
+                elif fi.cls is not None:
+                    allowed = closures.setdefault((attr, fi.cls.name), owner_closure(repo, fi.cls.name, allowed))
                 n += 1
                 ok = fi.cls is not None and (owner is None or fi.cls.name == owner) and fi.name in allowed and recv in ('self', 'cls')
                 rr.instance('%s writes %s.%s' % (fi.qualname, recv, attr))
@@ -54,33 +61,91 @@ def rule_r1(repo):
     return rr
 
 
-def _fresh_locals(fn):
-    """Local names whose every assignment is a constructor call / copy (a fresh object)."""
-    assigned = {}
-    for n in ast.walk(fn):
-        if isinstance(n, ast.Assign):
-            for t in n.targets:
-                if isinstance(t, ast.Name):
-                    assigned.setdefault(t.id, []).append(n.value)
-    fresh = set()
-    for name, vals in assigned.items():
-        ok = True
-        for v in vals:
-            if isinstance(v, ast.Call):
-                f = norm(v.func)
-                if f[:1].isupper() or f in ('deepcopy', 'copy.deepcopy', 'r.lookup') or f.endswith('Node') or f.endswith('Descriptor'):
-                    continue
-            ok = False
-        if ok:
-            fresh.add(name)
-    return fresh
+def _fresh_call(v):
+    """An expression that yields an object nobody else holds: a constructor call, a deep copy, a TableR lookup (TableR.lookup is
+    checked below to construct on every call)."""
+    if isinstance(v, ast.Call):
+        f = norm(v.func)
+        last = f.split('.')[-1]
+        if last[:1].isupper() or f in ('deepcopy', 'copy.deepcopy', 'r.lookup') or last.endswith('Node') or last.endswith('Descriptor') \
+                or last == 'from_element_descriptor':
+            return True
+    return False
+
+
+class _Provenance(object):
+    """Is the object a name denotes at a statement a fresh one on every path?  Flow-sensitive (reaching definitions), and through
+    parameters one level at a time: every call site of the function must hand over a fresh object."""
+
+    def __init__(self, repo):
+        self.repo = repo
+        self.rd = {}
+        self.stmt_of = {}
+
+    def tables(self, fi):
+        k = id(fi.node)
+        if k not in self.rd:
+            self.rd[k] = dataflow.reaching(fi.node)
+            self.stmt_of[k] = dataflow.enclosing_statement_map(fi.node)
+        return self.rd[k], self.stmt_of[k]
+
+    def fresh_expr(self, fi, expr, at_node, depth=0):
+        if _fresh_call(expr):
+            return True
+        if isinstance(expr, ast.Name):
+            return self.fresh_name(fi, expr.id, at_node, depth)
+        if isinstance(expr, ast.IfExp):
+            return self.fresh_expr(fi, expr.body, at_node, depth) and self.fresh_expr(fi, expr.orelse, at_node, depth)
+        return False
+
+    def fresh_name(self, fi, name, at_node, depth=0):
+        rd, stmt_of = self.tables(fi)
+        st = stmt_of.get(id(at_node))
+        if st is None or id(st) not in rd:
+            return False
+        defs = rd[id(st)].get(name)
+        if not defs:
+            return False
+        for kind, val in defs:
+            if kind == 'assign':
+                if not self.fresh_expr(fi, val, val if id(val) in stmt_of else st, depth):
+                    # the value node belongs to the defining statement: evaluate names there
+                    return False
+            elif kind == 'param':
+                if depth >= 3 or fi.name.startswith('__'):
+                    return False
+                sites = call_sites(self.repo, fi.name)
+                if not sites or mentions(self.repo, fi.name):
+                    return False
+                for caller, call in sites:
+                    arg = _argument_for(fi, call, val)
+                    if arg is None or not self.fresh_expr(caller, arg, call, depth + 1):
+                        return False
+            else:
+                return False
+        return True
+
+
+def _argument_for(fi, call, pname):
+    params = list(fi.params)
+    if fi.cls is not None and not fi.is_static and params and isinstance(call.func, ast.Attribute):
+        params = params[1:]
+    for k in call.keywords:
+        if k.arg == pname:
+            return k.value
+    if pname in params:
+        i = params.index(pname)
+        if i < len(call.args) and not any(isinstance(a, ast.Starred) for a in call.args[:i + 1]):
+            return call.args[i]
+    return None
 
 
 def rule_r2(repo):
     rr = RuleResult('C13.R2', 'descriptor objects shared through the table caches are never modified after construction')
     n = 0
+    prov = _Provenance(repo)
+    builders = {}
     for fi in repo.all_funcs():
-        fresh = _fresh_locals(fi.node)
         for node in ast.walk(fi.node):
             targets = []
             kind = 'store'
@@ -107,14 +172,15 @@ def rule_r2(repo):
                     continue
                 if recv.endswith('_node') or recv in ('node',) or (recv == 'self' and fi.cls is not None and fi.cls.name.endswith('Node')):
                     continue
-                if recv in fresh:
+                if isinstance(t.value, ast.Name) and prov.fresh_name(fi, t.value.id, node):
                     continue
-                if fi.qualname == 'TableD.__init__' and recv == 'self.descriptors[id_]':
-                    continue          # second pass of the table construction itself
-                if fi.qualname == '_descriptors_from_ids_iter' and recv == 'descriptor':
-                    # `descriptor = r.lookup(id_)`: TableR creates a new replication descriptor on every lookup
-                    vals = [norm(a.value) for a in ast.walk(fi.node) if isinstance(a, ast.Assign) and any(norm(x) == 'descriptor' for x in a.targets)]
-                    if vals == ['r.lookup(id_)']:
+                if _fresh_call(t.value):
+                    continue
+                if fi.cls is not None and fi.cls.name == 'TableD':
+                    # the table's own construction (second pass fills the members of the sequences the first pass created),
+                    # also when it has been split into private helpers that only the constructor reaches
+                    ok = builders.setdefault('TableD', owner_closure(repo, 'TableD', {'__init__'}))
+                    if fi.name in ok and t.attr == 'members':
                         continue
                 rr.fail('%s:%s.%s' % (fi.qualname, recv, t.attr), where,
                         '%s performs a %s of %s.%s: descriptor objects are cached per table group and shared by every message, so the change is visible to '
